@@ -657,7 +657,12 @@ class Cpt(object):
         for node in self.nodes:
             node_name = node.name
             if node_name in self.node_names:
-                index = self.node_names.index(node_name)
+                # A node name can occur twice: at an undrawn position
+                # (for example, the reference node of an Eopamp) and at a
+                # drawn pin.  The node that is drawn is the latter.
+                indices = [m for m, name in enumerate(self.node_names)
+                           if name == node_name and self.node_pinnames[m] != '']
+                index = indices[0] if indices else self.node_names.index(node_name)
                 pinname = self.node_pinnames[index]
             elif node_name in self.sch.nodes:
                 pinname = node_name.split('.')[-1]
